@@ -1,9 +1,13 @@
 """C12 - one correctly named, correctly subscribed listener per emitted event.
 
-TLC enumerates (spec/Gen_Project.tla Mode "emits") 16 placements of the emit call (expression statement, let
-initialiser, if/else branches, match arms, loop/while/for bodies, nested blocks, under ? and .await, as receiver of
-.unwrap()/.ok(), closure body, nested fn) x 8 receivers (app / window / webview variables, fields of those names, a
-method-call result, and two undocumented ones) x {emit, emit_to} x {literal, non-literal name}, and
+TLC enumerates (spec/Gen_Project.tla Mode "emits") the position of the emit call as a tail form (expression
+statement with / without semicolon, let initialiser, match arm expression, under ? and .await, receiver of
+.unwrap()/.ok(), `return e`, a condition) inside a path of enclosing frames (if / else / else-if / else-if-else /
+if-let, match arm block, loop / labelled loop / while / while-let / for, nested and labelled blocks, let-initialiser
+if / match, and the undocumented unsafe block, async block, closure, nested fn): the full product with 8 receivers
+(app / window / webview variables, fields of those names, a method-call result, and two undocumented ones) x
+{emit, emit_to} x {literal, non-literal name} at depth <= 1, every frame pair x tail at depth 2, every frame triple
+in the thorough tier, and
 (spec/Gen_Names.tla Mode "events") every event name over Tauri's alphabet [aB1-/:_] up to length 3.
 Each case is one top-level function of a real project; both modes are generated; Trace_Project.tla (Listeners)
 judges with Project!EventNames / OptionalNames: exactly one listener per distinct required name (names on
@@ -197,13 +201,13 @@ def run(tier, seed):
     C.write_evidence(PROP, tier, seed, "exploration", {
         "evaluations": (len(emit_cases) + len(name_cases) + len(PAYLOAD_FORMS)) * 2,
         "distinct_nontrivial": len(emit_cases) + len(name_cases) + len(PAYLOAD_FORMS),
-        "rule": "one evaluation = one emit case (placement x receiver x method x literal-ness, or one event name over [aB1-/:_] up to length 3, or one "
+        "rule": "one evaluation = one emit case (frame path x tail form x receiver x method x literal-ness, or one event name over [aB1-/:_] up to length 3, or one "
                 "payload form) in one mode; judged per generated project by TLC (Listeners) / per payload (Translate)",
         "samples": emit_cases[:3] + [{"name": cs(c["name"])} for c in name_cases[:3]],
         "projects_generated": len(events), "traces_validated_against_impl": len(events) + len(tevents),
         "known_findings_matched": len(verdicts.known_hit),
         "exhaustive": True,
-    }, time.time() - t0, assumptions=["emits inside a closure body or a nested fn are neither required nor forbidden to produce a listener",
+    }, time.time() - t0, assumptions=["emits inside a closure body, a nested fn, an async block or an unsafe block, in `return e` or in a condition are neither required nor forbidden to produce a listener",
                                       "emit(..).await is accepted syntactically although Tauri's emit is not async"],
         violations=len(verdicts.violations))
     shutil.rmtree(d, ignore_errors=True)
